@@ -117,8 +117,9 @@ func (dem *DepthExecutorManager) merge(resp *DepthExecutorResponse) error {
 				v2, ok2 := targetObj[k].(map[string]interface{})
 				if ok1 && ok2 {
 					targetObj[k] = mergeMaps(v2, v1)
-				} else if _, present := targetObj[k]; v != nil || !present {
-					// a null never replaces what another service has already answered for this key:
+				} else if _, present := targetObj[k]; (v != nil || !present) && !ok2 {
+					// a null never replaces what another service has already answered for this key,
+					// and nothing but an object is merged into an object:
 					// results arrive in completion order, which must not decide the outcome
 					targetObj[k] = v
 				}
@@ -130,7 +131,7 @@ func (dem *DepthExecutorManager) merge(resp *DepthExecutorResponse) error {
 				v2, ok2 := dem.result[key].(map[string]interface{})
 				if ok1 && ok2 {
 					dem.result[key] = mergeMaps(v2, v1)
-				} else if _, present := dem.result[key]; value != nil || !present {
+				} else if _, present := dem.result[key]; (value != nil || !present) && !ok2 {
 					dem.result[key] = value
 				}
 			}
